@@ -22,7 +22,7 @@ Lemma reflects_model c i e i' o :
   inst_inv i -> event_valid e -> step i e = Ok (i', o) -> reflects_C11 c (snapshot_of i) o = true.
 Proof.
   intros Hi He Hs. unfold reflects_C11. apply forallb_forall. intros q _. apply forallb_forall. intros x Hx.
-  destruct (step_frames i e i' o Hi He Hs q x Hx) as (p & _ & m & Hd & _ & _ & _ & _ & _ & _ & _ & _ & Hr).
+  destruct (step_frames i e i' o Hi He Hs q x Hx) as (p & _ & m & Hd & _ & _ & _ & _ & _ & _ & _ & _ & Hr & _).
   unfold decoded. rewrite Hd. exact Hr.
 Qed.
 
